@@ -207,6 +207,8 @@ enum Fault {
     TruncateMidLast,
     TruncateLastLine,
     TruncateHalf,
+    /// the file without its FIRST line (a well-formed suffix: what a front rotation would leave)
+    DropFirstLine,
     Garbage,
     Rollback(usize), // to the content after op j
 }
@@ -219,6 +221,7 @@ fn fault_name(f: &Fault) -> String {
         Fault::TruncateMidLast => "truncate_mid_last_record".into(),
         Fault::TruncateLastLine => "drop_last_line".into(),
         Fault::TruncateHalf => "truncate_half".into(),
+        Fault::DropFirstLine => "drop_first_line".into(),
         Fault::Garbage => "garbage_same_length".into(),
         Fault::Rollback(j) => format!("rollback_to_after_op{j}"),
     }
@@ -259,6 +262,15 @@ fn apply_fault(path: &Path, f: &Fault, snapshots: &[std::collections::BTreeMap<S
             }
         }
         Fault::TruncateHalf => Some(bytes[..bytes.len() / 2].to_vec()),
+        Fault::DropFirstLine => {
+            if !name.ends_with(".jsonl") {
+                return false;
+            }
+            match bytes.iter().position(|b| *b == b'\n') {
+                Some(i) if i + 1 < bytes.len() => Some(bytes[i + 1..].to_vec()),
+                _ => return false,
+            }
+        }
         Fault::Garbage => Some(bytes.iter().enumerate().map(|(i, _)| b"#garbage\n"[i % 9]).collect()),
         Fault::Rollback(j) => match snapshots.get(*j).and_then(|s| s.get(&name)) {
             Some(old) if *old != bytes => Some(old.clone()),
@@ -372,7 +384,7 @@ fn check_history(report: &Report, rt: &std::sync::Arc<tokio::runtime::Runtime>, 
         // window-crossing threads: delete-only faults on every file (each copy is expensive)
     }
     let files: Vec<String> = snapshots.last().map(|s| s.keys().cloned().collect()).unwrap_or_default();
-    let mut faults: Vec<Fault> = vec![Fault::Delete, Fault::Truncate0, Fault::Truncate1, Fault::TruncateMidLast, Fault::TruncateLastLine, Fault::TruncateHalf, Fault::Garbage];
+    let mut faults: Vec<Fault> = vec![Fault::Delete, Fault::Truncate0, Fault::Truncate1, Fault::TruncateMidLast, Fault::TruncateLastLine, Fault::TruncateHalf, Fault::DropFirstLine, Fault::Garbage];
     for j in 0..hist.len().saturating_sub(1) {
         faults.push(Fault::Rollback(j));
     }
@@ -681,7 +693,7 @@ pub fn run(opts: Opts) -> i32 {
          stub run, side effects, cursor set (2 keys), selection+compiled pair, manual checkpoint, auto compaction, a frame on another thread (so that the log ends with a foreign frame)}, plus window-crossing \
          prefixes (600 and 10 001 dense side-effect frames, a 300 KiB message, 3 x 3 MiB messages (thorough), 18 messages, 40 x 20 KiB messages: a messages+runs sidecar larger than the first tail windows) with suffixes; for every \
          history: no fault (warm and restarted authority) and EVERY single fault {delete, truncate to 0 / 1 byte / inside the last record / \
-         at the last line boundary / half, garbage of equal length, roll back to the content after each earlier op} on EVERY cache file of \
+         at the last line boundary / half, without its first line, garbage of equal length, roll back to the content after each earlier op} on EVERY cache file of \
          the thread a fresh authority, all read \
          capabilities + the compiled context for every message anchor, then one append and all of it again plus validated replay; a case \
          is distinct by (history, fault set, phase)",
